@@ -2902,6 +2902,7 @@ def field_summaries(F, struct_suffix, through_helpers=True):
     itself: whether a constructor sits in the public conversion function or in a function extracted from it does not matter."""
     W = EnvWalker(F)
     as_base, default_uses = set(), {}
+    own_ids, via_closure = {}, set()
     own = {}      # fn -> [(site, ctx, fields, base)]
     calls = {}    # caller -> [(callee, arg_nfs, ctx)]
     params = {}
@@ -2919,6 +2920,24 @@ def field_summaries(F, struct_suffix, through_helpers=True):
                     if df is not None:
                         as_base.add(id(H.strip(base)))
                 own.setdefault(fn, []).append((H.sp(e), ctx, fields, W.NF.nf(base, env) if isinstance(base, dict) else base))
+                own_ids.setdefault(fn, []).append(id(e))
+            if e.get("k") == "Call" and H.strip(e["f"]).get("k") == "Path" and H.strip(e["f"]).get("res") == "local":
+                # a local closure that builds the value (`let field = |name, ty| Field { name, ty, is_vec, .. }; .. field(a, b)`): every call
+                # of it is a construction site, with the arguments for the closure's parameters; the literal inside the closure is not one
+                fv = env.get(H.strip(e["f"])["id"]) if hasattr(env, "get") else None
+                if isinstance(fv, tuple) and fv and fv[0] == "closure" and fv[1] in _CLOSURES:
+                    cnode = _CLOSURES[fv[1]][0]
+                    lits = [x for x in H.exprs(cnode["body"]["value"]) if x.get("k") == "Struct" and (x["path"].get("path") or "").endswith(struct_suffix)]
+                    if len(lits) == 1 and not isinstance(lits[0].get("base"), dict):
+                        try:
+                            v = nf_simplify(W.NF.nf(e, env))
+                        except Unrecognised:
+                            v = None
+                        if isinstance(v, tuple) and v and v[0] == "call" and isinstance(v[1], str) and v[1].startswith("struct:"):
+                            fields = {fi[1]: fi[2] for fi in v[2] if isinstance(fi, tuple) and fi[0] == "field_init"}
+                            own.setdefault(fn, []).append((H.sp(e), ctx, fields, None))
+                            own_ids.setdefault(fn, []).append(None)
+                            via_closure.add(id(lits[0]))
             if e.get("k") == "Call" and (H.callee_path(e) or "").endswith(" as std::default::Default>::default"):
                 default_uses.setdefault(H.callee_path(e), []).append(id(e))
             if through_helpers and e.get("k") in ("Call", "MethodCall"):
@@ -2934,6 +2953,9 @@ def field_summaries(F, struct_suffix, through_helpers=True):
             own.pop(fn, None)
             calls.pop(fn, None)
             continue
+    for fn_ in list(own):
+        keep = [x for x, i_ in zip(own[fn_], own_ids.get(fn_, [None] * len(own[fn_]))) if i_ is None or i_ not in via_closure]
+        own[fn_] = keep
     # a Default impl that is only ever used to fill in the rest of a struct literal (`..S::default()`) builds no value of its own: its
     # members are accounted for at those literals
     for dp, uses in default_uses.items():
